@@ -417,3 +417,59 @@ Lemma cr_atomic_all_or_nothing_store {E : Type} (encode : list (st_str * E) -> c
 Proof.
   intros Hpq Hold Hbody _. rewrite <- Hold. apply cr_atomic_all_or_nothing; assumption.
 Qed.
+
+(* ---------- the hypotheses of the session theorems are jointly satisfiable: a toy codec and policy ---------- *)
+(* entries are unit; the file is byte 123 followed by every key as <length byte> <bytes>; keys shorter than 2^8 are
+   not required: lengths are arbitrary N "bytes" in this model *)
+Fixpoint cr_ex_enc_body (s : list (st_str * unit)) : cr_bytes :=
+  match s with
+  | [] => []
+  | (k, _) :: r => N.of_nat (length k) :: k ++ cr_ex_enc_body r
+  end.
+Definition cr_ex_encode (s : list (st_str * unit)) : cr_bytes := 123%N :: cr_ex_enc_body s.
+
+Fixpoint cr_ex_dec_body (fuel : nat) (b : cr_bytes) : option (list (st_str * unit)) :=
+  match b with
+  | [] => Some []
+  | n :: r =>
+    match fuel with
+    | O => None
+    | S f =>
+      let len := N.to_nat n in
+      if Nat.leb len (length r)
+      then match cr_ex_dec_body f (skipn len r) with
+           | Some s => Some ((firstn len r, tt) :: s)
+           | None => None
+           end
+      else None
+    end
+  end.
+Definition cr_ex_decode (b : cr_bytes) : option (list (st_str * unit)) :=
+  match b with
+  | 123%N :: r => cr_ex_dec_body (length r) r
+  | _ => None
+  end.
+
+Definition cr_ex_policy (b : cr_bytes) : list cr_op := [Cr_Write 1 (firstn 5 b); Cr_Spill 1 3; Cr_Write 1 (skipn 5 b)].
+
+Lemma cr_ex_dec_body_ok s : forall fuel, length (cr_ex_enc_body s) <= fuel -> cr_ex_dec_body fuel (cr_ex_enc_body s) = Some s.
+Proof.
+  induction s as [|[k []] s IH]; intros fuel Hf; [destruct fuel; reflexivity|].
+  cbn [cr_ex_enc_body] in *. cbn [length] in Hf. destruct fuel as [|fuel]; [lia|].
+  cbn [cr_ex_dec_body]. rewrite Nat2N.id.
+  rewrite app_length in *.
+  replace (length k <=? length k + length (cr_ex_enc_body s)) with true by (symmetry; apply Nat.leb_le; lia).
+  rewrite skipn_app, skipn_all, Nat.sub_diag. cbn [skipn app].
+  rewrite IH by lia. rewrite firstn_app, firstn_all, Nat.sub_diag. cbn [firstn]. rewrite app_nil_r. reflexivity.
+Qed.
+
+Lemma cr_ex_hyps :
+  (forall s, cr_ex_decode (cr_ex_encode s) = Some s) /\
+  (forall b, cr_body_ok 1 b (cr_ex_policy b) = true) /\
+  cr_ex_decode [] = None.
+Proof.
+  split; [|split; [|reflexivity]].
+  - intro s. unfold cr_ex_decode, cr_ex_encode. apply cr_ex_dec_body_ok. apply Nat.le_refl.
+  - intro b. unfold cr_body_ok, cr_ex_policy. cbn [forallb cr_body_op cr_written]. rewrite N.eqb_refl. cbn [andb].
+    rewrite app_nil_r, firstn_skipn. apply cr_bytes_eqb_eq. reflexivity.
+Qed.
